@@ -403,19 +403,20 @@ def oracle_buffer(m, spec, res, T):
 
     # which tokens were written, by which occurrence
     written = {}
-    by_pid = C.by_pid(res.trace).get(0, [])
-    occs, _ = C.occurrences(by_pid)
-    truth_by = {(o['tid'], o['occ']): o for o in T.occs if o['pid'] == 0}
+    truth_by = {(o['tid'], o['occ']): o for o in T.occs}
     plan = spec['plan']
-    for oc in occs:
-        last = None
-        for ev in oc['events']:
-            if ev[1] == 'fault' and ev[2].startswith('write:') and last is not None:
-                e = plan[ev[3]]
-                tok = e['text'].replace('%o', str(last[3])).strip()
-                written[tok] = (oc['tid'], oc['occ'])
-            elif ev[1] != 'fault':
-                last = ev
+    # (a test runs in exactly one process; children relay their output through the parent)
+    for pid, evs in sorted(C.by_pid(res.trace).items()):
+        occs, _ = C.occurrences(evs)
+        for oc in occs:
+            last = None
+            for ev in oc['events']:
+                if ev[1] == 'fault' and ev[2].startswith('write:') and last is not None:
+                    e = plan[ev[3]]
+                    tok = e['text'].replace('%o', str(last[3])).strip()
+                    written[tok] = (oc['tid'], oc['occ'])
+                elif ev[1] != 'fault':
+                    last = ev
     positions = {}
     for mm in TOKEN_RE.finditer(text):
         positions.setdefault(mm.group(0), []).append(mm.start())
